@@ -203,7 +203,8 @@ Section Agreement.
       new_session o s random [Some d1] [Some d2] [Some d3] = (sent, inl e) /\
       es_sik e = Bmc.a_sik act /\ es_k1 e = Bmc.a_k1 act /\ es_k2 e = Bmc.a_k2 act /\
       es_remote_id e = Bmc.a_bmc_id act /\ es_local_id e = Bmc.a_console_id act /\
-      es_suite e = s /\ Bmc.a_integ act = su_integ s /\ Bmc.a_conf act = su_conf s.
+      es_suite e = s /\ Bmc.a_integ act = su_integ s /\ Bmc.a_conf act = su_conf s /\
+      Bmc.a_bmc_id act = new_id /\ es_aes_key e = aes_key_of (es_k2 e).
   Proof.
     destruct auth_small as [Ha [Hi Hc]]. destruct auth_params_a as [icvlen [AP Eicv]].
     (* 1. Open Session *)
